@@ -225,7 +225,14 @@ def main(method_name, syslog):
 
     def _read_next_string_line():
         try:
-            line = stdin.readline(128)
+            # readline(128) hands out a longer line in pieces: put the
+            # pieces back together so that a line is always a whole line.
+            line = b''
+            while not line.endswith(b'\n'):
+                piece = stdin.readline(128)
+                if not piece:
+                    break  # end of input, possibly inside the last line
+                line += piece
             if not line:
                 return  # parent probably exited
             return line.decode('ASCII').strip()
